@@ -1,7 +1,7 @@
 """C01 - a dead worker always has one definite, consistent and stable outcome."""
 import ast
 
-from ..astutil import (AnalysisError, dotted, calls_in, last_attr, receiver, norm, is_name, walk_local, is_self_attr,
+from ..astutil import (split_if, AnalysisError, dotted, calls_in, last_attr, receiver, norm, is_name, walk_local, is_self_attr,
                        loc, short, parent_map)
 from ..cfg import is_flow, path_str
 from ..lifecycle import lifecycle, worker_classes, kind_of, landing_label, handler_context
@@ -292,8 +292,9 @@ def run(ctx):
     init = W.methods['__init__']
     ok = False
     for st in walk_local(init.node):
-        if isinstance(st, ast.If) and norm(st.test) == 'run' and st.orelse:
-            stores = [s for s in st.orelse if isinstance(s, ast.Assign) and any(is_self_attr(t, '_result') for t in s.targets)]
+        sp = split_if(st, lambda t: is_name(t, 'run')) if isinstance(st, ast.If) else None
+        if sp and sp[1]:
+            stores = [s for s in sp[1] if isinstance(s, ast.Assign) and any(is_self_attr(t, '_result') for t in s.targets)]
             ok = any(isinstance(s.value, ast.Tuple) and len(s.value.elts) == 2 and isinstance(s.value.elts[0], ast.Constant)
                      and s.value.elts[0].value is True and isinstance(s.value.elts[1], ast.Constant) and s.value.elts[1].value is None for s in stores)
     ctx.check('R2', 'Worker.__init__: a worker that is not run gets the fixed outcome (True, None)', ok, 'Worker.__init__', 'not-run-outcome',
